@@ -142,6 +142,9 @@ class _Ctl:
             a = srv.ip.split('.')
             self.say(227, 'Entering Passive Mode (%s,%s,%s,%s,%d,%d).' % (a[0], a[1], a[2], a[3], port >> 8, port & 255))
         elif v == 'SIZE':
+            if srv.faults.get('size_reply'):
+                self.conn.send(srv.faults['size_reply'])       # an answer to SIZE that names no usable number
+                return
             f = srv.tree.get(arg)
             if isinstance(f, bytes):
                 self.say(213, str(len(f)))
